@@ -2,6 +2,8 @@ package oxia
 
 import (
 	"context"
+
+	"github.com/oxia-db/oxia/common/constant"
 	"errors"
 	"io"
 	"time"
@@ -22,6 +24,8 @@ type zzSessServer struct {
 	heartbeats []int64
 	closed     []int64
 	beat       chan int64
+	lost       map[int64]bool // sessions the server no longer knows (expired while the client was away, closed behind its back)
+	lostSeen   chan int64
 }
 
 func (s *zzSessServer) CreateSession(context.Context, *proto.CreateSessionRequest, ...grpc.CallOption) (*proto.CreateSessionResponse, error) {
@@ -34,6 +38,13 @@ func (s *zzSessServer) CreateSession(context.Context, *proto.CreateSessionReques
 func (s *zzSessServer) KeepAlive(_ context.Context, hb *proto.SessionHeartbeat, _ ...grpc.CallOption) (*proto.KeepAliveResponse, error) {
 	if s.down {
 		return nil, status.Error(codes.Unavailable, "zz: down")
+	}
+	if s.lost[hb.SessionId] {
+		select {
+		case s.lostSeen <- hb.SessionId:
+		default:
+		}
+		return nil, status.Error(constant.CodeSessionNotFound, "zz: session not found")
 	}
 	s.heartbeats = append(s.heartbeats, hb.SessionId)
 	select {
@@ -118,6 +129,36 @@ func ZZClientSession(move int) {
 		zzTick() // the next one must reach the new leader
 		got := <-b.beat // blocks until a heartbeat reaches the new leader
 		vAssert("heartbeats-follow-the-leader-with-the-same-session", got == sid)
+	} else if move == 2 {
+		// the server loses the session (it expired while the client was partitioned): the next heartbeat is answered
+		// "session not found". The client must stop using the dead session: the next ephemeral put gets a NEW
+		// session, which is the one kept alive and the one closed by Close.
+		zzTick()
+		vAssert("heartbeat-carries-the-session-id", <-a.beat == sid)
+		a.lost = map[int64]bool{sid: true}
+		a.lostSeen = make(chan int64, 1)
+		zzTick()
+		vAssert("the-dead-session's-heartbeat-was-refused", <-a.lostSeen == sid)
+		vSettle(20) // natively: let the keep-alive goroutine finish handling the refusal
+		ss.executeWithSessionId(0, func(id int64, err error) {
+			vAssert("a-new-session-replaces-the-dead-one", err == nil && id != sid)
+			ids <- id
+		})
+		sid2 := <-ids
+		vAssert("second-session-created", a.created == 2)
+		zzTick()
+		vAssert("the-new-session-is-kept-alive", <-a.beat == sid2)
+		vAssert("close-ok", ss.Close() == nil)
+		closedNew := false
+		for _, c := range a.closed {
+			if c == sid2 {
+				closedNew = true
+			}
+		}
+		vAssert("the-live-session-is-closed-by-close", closedNew)
+		cancel()
+		vReach("end")
+		return
 	} else {
 		zzTick()
 		got := <-a.beat
